@@ -57,3 +57,13 @@ def chi2Table (t : List (List Nat)) : Option Rat :=
     (o - c.2) * (o - c.2) / c.2)))
 
 end Measures
+
+namespace Measures
+
+/-- the contingency table of two qualitative columns: one row per category of `cats` (in that
+    order: pandas' `crosstab` sorts them by name), one column per class of `cls`, counting the rows
+    of the data that hold the pair -/
+def contingency (xs ys : List String) (cats cls : List String) : List (List Nat) :=
+  cats.map (fun a => cls.map (fun b => ((xs.zip ys).filter (fun p => p.1 == a && p.2 == b)).length))
+
+end Measures
